@@ -7,7 +7,7 @@
 From Coq Require Import Reals ZArith List Bool Arith Lia Lra Sorted.
 From Coquelicot Require Import Coquelicot.
 From NF Require Import Base.Ops Base.Rops Base.Result Gen.Utils Gen.SplineQuadratic Model.Utils Model.Vec Model.SplineRQ
-  Model.SplineQuadratic Proofs.VecR Proofs.SplineLQP Proofs.UtilsR.
+  Model.SplineQuadratic Proofs.VecR Proofs.SplineLQP Proofs.UtilsR Proofs.Glue.
 Import ListNotations.
 Open Scope R_scope.
 
@@ -559,5 +559,112 @@ Section QWhole.
       - pose proof (Hinc x' x ltac:(lra) L ltac:(lra)). lra.
       - pose proof (Hinc x x' ltac:(lra) L ltac:(lra)). lra. }
     subst x'. rewrite E', Hl. reflexivity.
+  Qed.
+
+  (* ---- differentiability of the whole spline, knots included: the piecewise-linear density is continuous across knots (both
+     neighbouring bins use the SAME node height there), so the spline is C1 and the returned log-abs-det is ln of its derivative ---- *)
+  Definition gk (k : nat) (x : R) : R := rawk k (qxnorm x) * (b_top bx - b_bottom bx) + b_bottom bx.
+  Definition dgk (k : nat) (x : R) : R := slopek k (qxnorm x) * (b_top bx - b_bottom bx) / (b_right bx - b_left bx).
+
+  Lemma gk_derive k x : (k < K)%nat -> is_derive (gk k) x (dgk k x).
+  Proof.
+    intros Hk. pose proof (ws_nth_pos k Hk) as Pw.
+    destruct (q_coefs (lk k) (nth k ws 0) (ck k) (nth k hs 0) (nth (S k) hs 0)) as [Ea [Eb Ec]].
+    unfold gk, dgk, rawk, slopek, q_raw, q_slope, qxnorm. rewrite Ea, Eb, Ec.
+    auto_derive; [repeat split; apply Rgt_not_eq; lra | field; split; apply Rgt_not_eq; lra].
+  Qed.
+
+  Lemma QF_on_bin j y : (j < K)%nat -> b_left bx <= y <= b_right bx -> lk j <= qxnorm y -> qxnorm y < lk (S j) ->
+    QF y = gk j y /\ QFlad y = ln (slopek j (qxnorm y)) + ln (b_top bx - b_bottom bx) - ln (b_right bx - b_left bx).
+  Proof.
+    intros Hj Hb A B. destruct (q_forward_in_bin y Hb) as [k [Hk [Hge [Hlt [Hle E]]]]].
+    assert (k = j) by (apply (q_bin_unique lk (qxnorm y)); try assumption; [apply lk_increasing | left; exact B]). subst k.
+    unfold QF, QFlad, gk. rewrite E. split; reflexivity.
+  Qed.
+
+  Lemma qxnorm_inv v : qxnorm (v * (b_right bx - b_left bx) + b_left bx) = v.
+  Proof. unfold qxnorm. field. lra. Qed.
+
+  Definition Wd : R := b_right bx - b_left bx.
+  Lemma Wd_pos : 0 < Wd. Proof. unfold Wd. lra. Qed.
+  Lemma qxnorm_diff y x : qxnorm y - qxnorm x = (y - x) / Wd.
+  Proof. unfold qxnorm, Wd. field. lra. Qed.
+  Lemma qxnorm_ends : qxnorm (b_left bx) = 0 /\ qxnorm (b_right bx) = 1.
+  Proof. unfold qxnorm. split; field; lra. Qed.
+  Lemma qxnorm_lt a b : a < b -> qxnorm a < qxnorm b.
+  Proof. intros H. pose proof (qxnorm_diff b a) as E. pose proof Wd_pos. assert (0 < (b - a) / Wd) by (apply Rdiv_lt_0_compat; lra). lra. Qed.
+  Lemma qxnorm_back y : y = qxnorm y * Wd + b_left bx.
+  Proof. unfold qxnorm, Wd. field. lra. Qed.
+
+  Theorem quadratic_whole_derivative x : b_left bx < x < b_right bx ->
+    is_derive QF x (exp (QFlad x)) /\ 0 < exp (QFlad x).
+  Proof.
+    intros [Hl Hr]. split; [|apply exp_pos].
+    pose proof Wd_pos as HW. destruct qxnorm_ends as [En0 En1].
+    destruct (q_forward_in_bin x ltac:(lra)) as [k [Hk [Hge [Hlt [Hle E]]]]].
+    assert (Hn1 : qxnorm x < 1) by (rewrite <- En1; apply qxnorm_lt; exact Hr).
+    assert (Hn0 : 0 < qxnorm x) by (rewrite <- En0; apply qxnorm_lt; exact Hl).
+    assert (Hlt' : qxnorm x < lk (S k)).
+    { destruct Hlt as [L|EK]; [exact L|]. rewrite EK, lk_K. exact Hn1. }
+    pose proof (slopek_pos k (qxnorm x) Hk (conj Hge Hle)) as Ps.
+    assert (EL : exp (QFlad x) = dgk k x).
+    { unfold QFlad. rewrite E. unfold dgk. unfold Rminus. rewrite !exp_plus, exp_Ropp, !exp_ln by lra. field. lra. }
+    rewrite EL.
+    (* points near x whose normalised position lies within delta of qxnorm x *)
+    assert (near : forall d y, 0 < d -> x - d * Wd < y < x + d * Wd -> qxnorm x - d < qxnorm y < qxnorm x + d).
+    { intros d y Hd [Y1 Y2]. pose proof (qxnorm_diff y x) as Ed.
+      assert (- d < (y - x) / Wd < d).
+      { split.
+        - apply (Rmult_lt_reg_r Wd); [exact HW|]. unfold Rdiv. rewrite Rmult_assoc, Rinv_l by lra. lra.
+        - apply (Rmult_lt_reg_r Wd); [exact HW|]. unfold Rdiv. rewrite Rmult_assoc, Rinv_l by lra. lra. }
+      lra. }
+    assert (inbox : forall d y, 0 < d -> d <= qxnorm x -> d <= 1 - qxnorm x -> x - d * Wd < y < x + d * Wd -> b_left bx <= y <= b_right bx).
+    { intros d y Hd D1 D2 Hy. destruct (near d y Hd Hy) as [N1 N2].
+      rewrite (qxnorm_back y). unfold Wd in *. split; nra. }
+    destruct (Rle_lt_or_eq_dec _ _ Hge) as [Hgt|Eq].
+    - (* strictly inside bin k *)
+      apply (derive_ext_near QF (gk k) x (dgk k x)); [apply gk_derive; exact Hk|].
+      set (d := Rmin (Rmin (qxnorm x - lk k) (lk (S k) - qxnorm x)) (Rmin (qxnorm x) (1 - qxnorm x))).
+      assert (Hd : 0 < d) by (unfold d; repeat apply Rmin_glb_lt; lra).
+      exists (d * Wd). split; [apply Rmult_lt_0_compat; assumption|]. intros y Hy.
+      destruct (near d y Hd Hy) as [N1 N2].
+      assert (D1 : d <= qxnorm x - lk k) by (unfold d; eapply Rle_trans; [apply Rmin_l | apply Rmin_l]).
+      assert (D2 : d <= lk (S k) - qxnorm x) by (unfold d; eapply Rle_trans; [apply Rmin_l | apply Rmin_r]).
+      assert (D3 : d <= qxnorm x) by (unfold d; eapply Rle_trans; [apply Rmin_r | apply Rmin_l]).
+      assert (D4 : d <= 1 - qxnorm x) by (unfold d; eapply Rle_trans; [apply Rmin_r | apply Rmin_r]).
+      apply QF_on_bin; [exact Hk | apply (inbox d); assumption | lra | lra].
+    - (* x sits on the knot l_k with k >= 1 *)
+      assert (Hk1 : (0 < k)%nat).
+      { destruct k as [|k']; [exfalso; rewrite lk_0 in Eq; lra | lia]. }
+      destruct k as [|j]; [lia|]. assert (Hj : (j < K)%nat) by lia.
+      destruct (rawk_ends j Hj) as [_ Ej2]. destruct (rawk_ends (S j) Hk) as [Ek1 _].
+      apply (derive_glue QF (gk j) (gk (S j)) x (dgk (S j) x)).
+      + replace (dgk (S j) x) with (dgk j x); [apply gk_derive; exact Hj|].
+        unfold dgk, slopek, q_slope. rewrite <- Eq.
+        replace ((lk (S j) - lk (S j)) / nth (S j) ws 0) with 0 by (field; apply Rgt_not_eq; apply ws_nth_pos; exact Hk).
+        rewrite (lk_S j Hj). replace ((lk j + nth j ws 0 - lk j) / nth j ws 0) with 1 by (field; apply Rgt_not_eq; apply ws_nth_pos; exact Hj). field. lra.
+      + apply gk_derive; exact Hk.
+      + unfold QF. rewrite E. unfold gk. rewrite <- Eq, Ej2, Ek1. reflexivity.
+      + unfold QF. rewrite E. reflexivity.
+      + set (d := Rmin (nth j ws 0) (Rmin (qxnorm x) (1 - qxnorm x))).
+        assert (Hd : 0 < d) by (unfold d; repeat apply Rmin_glb_lt; try lra; apply ws_nth_pos; exact Hj).
+        exists (d * Wd). split; [apply Rmult_lt_0_compat; assumption|]. intros y [Y1 Y2].
+        assert (Hy : x - d * Wd < y < x + d * Wd) by (assert (0 < d * Wd) by (apply Rmult_lt_0_compat; assumption); lra).
+        destruct (near d y Hd Hy) as [N1 _].
+        assert (N2 : qxnorm y < qxnorm x) by (apply qxnorm_lt; lra).
+        assert (D1 : d <= nth j ws 0) by (unfold d; apply Rmin_l).
+        assert (D3 : d <= qxnorm x) by (unfold d; eapply Rle_trans; [apply Rmin_r | apply Rmin_l]).
+        assert (D4 : d <= 1 - qxnorm x) by (unfold d; eapply Rle_trans; [apply Rmin_r | apply Rmin_r]).
+        apply QF_on_bin; [exact Hj | apply (inbox d); assumption | rewrite <- Eq in N1; rewrite (lk_S j Hj) in N1; lra | rewrite Eq; exact N2].
+      + set (d := Rmin (nth (S j) ws 0) (Rmin (qxnorm x) (1 - qxnorm x))).
+        assert (Hd : 0 < d) by (unfold d; repeat apply Rmin_glb_lt; try lra; apply ws_nth_pos; exact Hk).
+        exists (d * Wd). split; [apply Rmult_lt_0_compat; assumption|]. intros y [Y1 Y2].
+        assert (Hy : x - d * Wd < y < x + d * Wd) by (assert (0 < d * Wd) by (apply Rmult_lt_0_compat; assumption); lra).
+        destruct (near d y Hd Hy) as [_ N1].
+        assert (N2 : qxnorm x < qxnorm y) by (apply qxnorm_lt; lra).
+        assert (D1 : d <= nth (S j) ws 0) by (unfold d; apply Rmin_l).
+        assert (D3 : d <= qxnorm x) by (unfold d; eapply Rle_trans; [apply Rmin_r | apply Rmin_l]).
+        assert (D4 : d <= 1 - qxnorm x) by (unfold d; eapply Rle_trans; [apply Rmin_r | apply Rmin_r]).
+        apply QF_on_bin; [exact Hk | apply (inbox d); assumption | rewrite Eq; lra | rewrite <- Eq in N1; rewrite (lk_S (S j) Hk); lra].
   Qed.
 End QWhole.
